@@ -176,12 +176,13 @@ theorem lexer_cache_key_complete :
     envParseCalls = ["get_parser(self)", "self.tokenizer()"] := by
   decide +kernel
 
-/-- every delimiter reaches the pattern only through `re.escape`: each parameter is escaped once, the
+/-- every delimiter reaches the pattern only through `re.escape`: each parameter is escaped exactly once (in any order), the
 f-strings interpolate only the escaped locals, the only other use of a parameter is the truth test of
 `comment_start_string`, and (run on the live function) the pattern for metacharacter-rich delimiters is
 the placeholder pattern with `re.escape(delimiter)` substituted. -/
 theorem all_delims_escaped :
-    escapeAssigns.map (·.2) = compileParams ∧
+    escapeAssigns.length = compileParams.length ∧
+    compileParams.all (fun p => (escapeAssigns.filter (·.2 == p)).length == 1) = true ∧
     patternVars.all (fun v => (escapeAssigns.map (·.1)).contains v) = true ∧
     patternComplexFormats = [] ∧ rawParamUses = ["comment_start_string"] ∧ escapeDynamicOk = true := by
   decide +kernel
